@@ -97,7 +97,7 @@ func (c *Ctx) finish() {
 			b.WriteString("\n")
 		}
 		b.WriteString("].\n")
-		fmt.Fprintf(&b, "Definition M := Eval vm_compute in %s %d cases.\nPrint M.\n", c.mismatch, lo)
+		fmt.Fprintf(&b, "Definition M := Eval vm_compute in firstn 10 (%s %d cases).\nPrint M.\n", c.mismatch, lo)
 		must(os.WriteFile(filepath.Join(c.Out, fmt.Sprintf("cases_%03d.v", s)), []byte(b.String()), 0o644))
 	}
 	keys := make([]string, 0, len(c.classes))
